@@ -284,7 +284,11 @@ impl<W: AsRef<[u64]>> JsonIndex<W> {
             return None;
         }
 
-        let k32 = k as u32;
+        // `k` past `u32::MAX` can never name a set bit (`ib_len <= u32::MAX`, #188);
+        // casting it would silently answer for `k mod 2^32` instead.
+        let Ok(k32) = u32::try_from(k) else {
+            return None;
+        };
         let n = words.len();
 
         // #40: count `ib_rank` probes so this path's cost can be compared with
@@ -402,7 +406,11 @@ impl<W: AsRef<[u64]>> JsonIndex<W> {
             return None;
         }
 
-        let k32 = k as u32;
+        // `k` past `u32::MAX` can never name a set bit (`ib_len <= u32::MAX`, #188);
+        // casting it would silently answer for `k mod 2^32` instead.
+        let Ok(k32) = u32::try_from(k) else {
+            return None;
+        };
         let n = words.len();
 
         // Binary search over all words
